@@ -348,6 +348,8 @@ def audit(fb, chk, rule, roots, scope="", table=None, stop=None, tag=""):
 # rows shared by every audit whose closure contains the transport layer
 COMMON_TABLE = {
     "vhost::vhost_user::connection::get_sub_iovs_offset:Overflow(Add):*": ("C", "loop counter bounded by the slice length", None, 1),
+    "Endpoint::recv_data:Overflow(Add):*": ("C", "bytes received per call <= len - data_read (the kernel returns at most the bytes requested), so data_read <= len", None, 1),
+    "Endpoint::recv_data:index_mut:*": ("C", "data_read < len == rbuf.len() is the loop condition", None, 1),
     "Endpoint::recv_data:from_elem:*": ("C", "callers pass a header size field validated <= MAX_MSG_SIZE (backend: header validator; frontend-request server: explicit bound)", None, 1),
     "Endpoint::send_message_with_payload:Overflow(Add):*": ("C", "len <= MAX_MSG_SIZE - size_of::<T>() is a must-fact (relational bound)", None, 3),
     "Endpoint::recv_into_iovec_all:*": ("C", "transport loop invariant 0 <= data_read < data_total; the kernel returns at most the bytes requested; get_sub_iovs_offset returns an in-range (index, offset)", None, 7),
